@@ -176,3 +176,22 @@ impl State {
         }
     }
 }
+
+#[cfg(feature = "verif-hooks")]
+impl State {
+    pub(super) fn verif_dump(&self) -> String {
+        let r: Vec<String> = self
+            .receiver_synchronize
+            .iter()
+            .map(|s| s.verif_dump())
+            .collect();
+        format!(
+            "Channel cnt={} ls={} lr={} ssync={} rsync=[{}]",
+            self.msg_cnt,
+            Access::verif_dump(&self.last_send_access),
+            Access::verif_dump(&self.last_recv_access),
+            self.sender_synchronize.verif_dump(),
+            r.join(";")
+        )
+    }
+}
